@@ -9,6 +9,12 @@ def region(r, low=False):
     if low: return (0x200000 + r.randrange(0, 0x6000) * PAGE)            # below 128 MiB: the search window is clipped at 0
     return 0x200000000000 + r.randrange(1, 1 << 14) * 0x40000000           # 1 GiB slots, far from everything else
 
+def placement_suite(r, prefix, tier="quick"):
+    """one history per kind of target placement: every arena mode that does not need the window reserved, plus the deterministic-trampoline ones"""
+    modes = ["page0"] * 3 + ["neigh"] * 2 + ["straddle"] * 2 + ["low"] * 2 + ["alias"] * 3 + ["hole_lo", "hole_hi", "hole", "edge"] + [f"align{k}" for k in (1, 2, 3, 5, 7, 8, 9, 13, 15)]
+    if tier == "thorough": modes = modes * 8
+    return [gen(r, f"{prefix}{i}", mode=m) for i, m in enumerate(modes)]
+
 def gen(r, hid, mode=None, max_lifetimes=2):
     mode = mode or r.choice(["straddle", "straddle", "neigh", "low", "hole", "hole_lo", "hole_hi", "edge", "edge", "full", "empty", "alias"])
     if mode.startswith("align"):
@@ -31,6 +37,7 @@ def gen(r, hid, mode=None, max_lifetimes=2):
     B = region(r, low)
     off = r.choice(list(range(4080, 4096))) if mode in ("straddle", "edge") or r.random() < 0.4 else r.choice([0, 16, 1024, 4000, 4064])
     if mode in ("hole_lo", "hole_hi"): off = 0 if r.random() < 0.5 else off
+    if mode == "page0": off = 0                              # the function starts exactly on a page boundary: the first hint of the scan (target - 128 MiB) is a page address itself
     if mode in ("hole_plusR", "hole_minusR"): off = 0        # page-aligned target: the page at exactly +-128 MiB is just outside the acceptance range
     t = B + off
     decl = [f"A={B:x}/2", f"F={t:x}/1111"]
